@@ -1819,7 +1819,7 @@ func markEncoder(info *types.Info, e ast.Expr, en map[types.Object]string) {
 
 // E5StringEscape: the literal-string writer escapes every byte the PDF syntax would otherwise reinterpret.
 func E5StringEscape(c *core.Ctx, r *core.Report) {
-	r.Rule("E5.string-escape", "writeVal writes Go strings as PDF literal strings `(…)`. Inside a literal string a reader treats the backslash as an escape, unbalanced parentheses as delimiters and an unescaped carriage return (alone or before a line feed) as a single line feed (ISO 32000-1 §7.3.4.2). The string case therefore replaces each of `\\`, `(`, `)` and CR by its escape, the backslash first. Document information is stored as UTF-16BE in such strings, where the byte 0x0D occurs inside ordinary letters (U+010D, the Malayalam block U+0D00…): without the CR escape it is not stored verbatim")
+	r.Rule("E5.string-escape", "writeVal writes Go strings as PDF literal strings `(…)`. Inside a literal string a reader treats the backslash as an escape, unbalanced parentheses as delimiters and an unescaped carriage return (alone or before a line feed) as a single line feed (ISO 32000-1 §7.3.4.2). The string case therefore replaces each of `\\`, `(`, `)` and CR by its escape, the backslash first, and unconditionally (as top-level statements of the case). Document information is stored as UTF-16BE in such strings, where the byte 0x0D occurs inside ordinary letters (U+010D, the Malayalam block U+0D00…): without the CR escape it is not stored verbatim")
 	p := c.MustPkg(pdfRel)
 	info := p.TypesInfo
 	wv := core.MustFuncDecl(p, "pdfWriter.writeVal")
@@ -1844,7 +1844,11 @@ func E5StringEscape(c *core.Ctx, r *core.Report) {
 		panic(core.Infra("E5.string-escape: string case of writeVal not found"))
 	}
 	var order []string
+	conditional := map[string]token.Pos{}
 	for _, s := range clause.Body {
+		_, isAssign := s.(*ast.AssignStmt)
+		_, isExpr := s.(*ast.ExprStmt)
+		topLevel := isAssign || isExpr
 		ast.Inspect(s, func(n ast.Node) bool {
 			call, ok := n.(*ast.CallExpr)
 			if !ok {
@@ -1855,12 +1859,24 @@ func E5StringEscape(c *core.Ctx, r *core.Report) {
 				return true
 			}
 			if tv, ok := info.Types[call.Args[1]]; ok && tv.Value != nil {
-				order = append(order, constantStringVal(tv.Value))
+				b := constantStringVal(tv.Value)
+				order = append(order, b)
+				if !topLevel {
+					conditional[b] = call.Pos()
+				}
 			}
 			return true
 		})
 	}
 	pos := c.Pos(clause.Pos())
+	for _, need := range []struct{ b, name string }{{"\\", "backslash"}, {"(", "opening parenthesis"}, {")", "closing parenthesis"}, {"\r", "carriage return"}} {
+		key := "pdf.pdfWriter.writeVal|literal string|" + need.name + " escaped unconditionally"
+		if at, isCond := conditional[need.b]; isCond {
+			r.Fail("E5.string-escape", key, c.Pos(at), "the escape of the "+need.name+" sits inside a conditional statement: for the strings the condition excludes (e.g. equally many `(` and `)` in the wrong order, or UTF-16 text whose bytes happen to be 0x28/0x29) the byte is written unescaped and a reader ends the literal early")
+		} else {
+			r.OK("E5.string-escape", key, pos, "")
+		}
+	}
 	for _, need := range []struct{ b, name string }{{"\\", "backslash"}, {"(", "opening parenthesis"}, {")", "closing parenthesis"}, {"\r", "carriage return"}} {
 		key := "pdf.pdfWriter.writeVal|literal string|" + need.name + " escaped"
 		found := false
